@@ -518,6 +518,12 @@ fn run_once(line: &str, dir: &PathBuf, quiet: Duration) -> String {
     let chain: Vec<String> = field(line, "B").unwrap().split(',').map(|s| s.to_string()).collect();
     let ops: Vec<&str> = field(line, "ops").unwrap().split(' ').filter(|s| !s.is_empty()).collect();
     let exp = expected_counts(field(line, "exp").unwrap_or(""));
+    // the in-progress vector the model expects after each step ("a1.0")
+    let exp_act: Vec<String> = field(line, "exp")
+        .unwrap_or("")
+        .split(" ; ")
+        .map(|s| s.rsplit("/a").next().unwrap_or("").split(|c: char| !(c.is_ascii_digit() || c == '.')).next().unwrap_or("").to_string())
+        .collect();
     let sh = Arc::new(Shared::default());
     // listener token -> builder call (bind with k addresses makes k tokens)
     let mut tok_call: Vec<usize> = Vec::new();
@@ -749,6 +755,15 @@ fn run_once(line: &str, dir: &PathBuf, quiet: Duration) -> String {
         let mut new: Vec<(u64, usize, usize)> = sh.served.lock().unwrap()[seen..].to_vec();
         seen += new.len();
         new.sort();
+        // service calls of a worker that has died end when its thread has torn its runtime down, which can take longer than the
+        // quiet period on a loaded machine: where a worker died in this step (K / J), give the in-progress vector time to reach
+        // the expected one (the properties speak about settled states; a vector that never gets there is still reported)
+        if matches!(op.as_bytes()[0], b'K' | b'J') {
+            if let Some(want_act) = exp_act.get(k) {
+                let cur = || sh.active[..w.min(MAXW)].iter().map(|a| a.load(Ordering::SeqCst).to_string()).collect::<Vec<_>>().join(".");
+                let _ = wait_until_for(if starved { Duration::from_secs(1) } else { Duration::from_secs(3) }, || &cur() == want_act);
+            }
+        }
         let act: Vec<String> = sh.active[..w.min(MAXW)].iter().map(|a| a.load(Ordering::SeqCst).to_string()).collect();
         let stray: usize = sh.active[w.min(MAXW)..].iter().map(|a| a.load(Ordering::SeqCst)).sum();
         if stray > 0 {
